@@ -76,36 +76,72 @@ def IView.getTxByHash (v : IView) (hash : Bytes) : Bytes := decTxHash (v.getB (t
 def IView.dbBlockByHeight (v : IView) (h : Nat) : BlockRes := v.getBlock (v.getB (blockHeightKey h)) true
 def IView.dbQCByHeight (v : IView) (h : Nat) : Nat × Bytes := decQC (v.getB (qcHeightKey h))
 
-/-! ## `blockCache`: `lru.New[uint64, *lib.BlockResult](64)` — most recently used first -/
+/-! ## `blockCache`: one LRU of 64 block results for the whole process — most recently used first.
 
-abbrev Cache := List (Nat × BlockRes)
+Two keyings are modelled. `byHashKey` is the code as it stands (commit fbabcb4): the key is
+`string(hashKey)`, the block's hash key, and every reader first resolves `height → hashKey` through its
+OWN view (`t.db.Get(t.blockHeightKey(height))`), answers an absent height from the view without touching
+the cache, and only then consults the cache; header-only results are never cached. `byHeight` is the
+code before that commit: `lru.New[uint64, …]` keyed by the height, consulted before the view, filled by
+every miss (kept as the model of the defect: `Props/C10.lean`, `block_cache_defect_*`). Which one applies
+is derived from generated facts (`Canopy.Gen.Store`) in `Props/C10.lean`. -/
 
-def Cache.lookup (c : Cache) (h : Nat) : Option BlockRes := (c.find? fun e => e.1 == h).map (·.2)
+inductive CacheKeying
+  | byHeight
+  | byHashKey
+  deriving DecidableEq, Repr
+
+/-- the key is the height (`be8 h`) under `byHeight`, the hash key under `byHashKey` -/
+abbrev Cache := List (Bytes × BlockRes)
+
+def Cache.lookup (c : Cache) (k : Bytes) : Option BlockRes := (c.find? fun e => e.1 == k).map (·.2)
 /-- `Get`: a hit moves the entry to the front -/
-def Cache.touch (c : Cache) (h : Nat) : Cache :=
-  match c.find? fun e => e.1 == h with
-  | some e => e :: c.filter fun x => x.1 != h
+def Cache.touch (c : Cache) (k : Bytes) : Cache :=
+  match c.find? fun e => e.1 == k with
+  | some e => e :: c.filter fun x => x.1 != k
   | none => c
 /-- `Add`: insert or update at the front, evict the least recently used beyond 64 -/
-def Cache.add (c : Cache) (h : Nat) (b : BlockRes) : Cache := ((h, b) :: c.filter fun x => x.1 != h).take 64
+def Cache.add (c : Cache) (k : Bytes) (b : BlockRes) : Cache := ((k, b) :: c.filter fun x => x.1 != k).take 64
 
-/-- `GetBlockByHeight`: cache first; a miss is answered from the view and cached -/
-def getBlockByHeight (c : Cache) (v : IView) (h : Nat) : BlockRes × Cache :=
-  match c.lookup h with
-  | some b => (b, c.touch h)
-  | none => let b := v.dbBlockByHeight h; (b, c.add h b)
+/-- `GetBlockByHeight` -/
+def getBlockByHeight (mode : CacheKeying) (c : Cache) (v : IView) (h : Nat) : BlockRes × Cache :=
+  match mode with
+  | .byHeight =>
+    match c.lookup (be8 h) with
+    | some b => (b, c.touch (be8 h))
+    | none => let b := v.dbBlockByHeight h; (b, c.add (be8 h) b)
+  | .byHashKey =>
+    let hk := v.getB (blockHeightKey h)
+    if hk.isEmpty then (v.getBlock hk true, c)
+    else match c.lookup hk with
+      | some b => (b, c.touch hk)
+      | none => let b := v.getBlock hk true; (b, c.add hk b)
 
-/-- `GetBlockHeaderByHeight`: same cache, header-only result on a miss -/
-def getBlockHeaderByHeight (c : Cache) (v : IView) (h : Nat) : BlockRes × Cache :=
-  match c.lookup h with
-  | some b => (b, c.touch h)
-  | none => let b := v.getBlock (v.getB (blockHeightKey h)) false; (b, c.add h b)
+/-- `GetBlockHeaderByHeight` -/
+def getBlockHeaderByHeight (mode : CacheKeying) (c : Cache) (v : IView) (h : Nat) : BlockRes × Cache :=
+  match mode with
+  | .byHeight =>
+    match c.lookup (be8 h) with
+    | some b => (b, c.touch (be8 h))
+    | none => let b := v.getBlock (v.getB (blockHeightKey h)) false; (b, c.add (be8 h) b)
+  | .byHashKey =>
+    let hk := v.getB (blockHeightKey h)
+    if hk.isEmpty then (v.getBlock hk false, c)
+    else match c.lookup hk with
+      | some b => (b, c.touch hk)
+      | none => (v.getBlock hk false, c)
 
 /-- `GetQCByHeight`: the QC from the view, its block through `GetBlockByHeight` -/
-def getQCByHeight (c : Cache) (v : IView) (h : Nat) : (Nat × Bytes × BlockRes) × Cache :=
+def getQCByHeight (mode : CacheKeying) (c : Cache) (v : IView) (h : Nat) : (Nat × Bytes × BlockRes) × Cache :=
   let qc := v.dbQCByHeight h
-  let r := getBlockByHeight c v h
+  let r := getBlockByHeight mode c v h
   ((qc.1, qc.2, r.1), r.2)
+
+/-- the key `IndexBlock` caches the block under -/
+def indexCacheKey (mode : CacheKeying) (h : Nat) (hash : Bytes) : Bytes :=
+  match mode with
+  | .byHeight => be8 h
+  | .byHashKey => blockHashKey hash
 
 /-! ## the process: the store of C10 plus its indexer partition and the block cache -/
 
@@ -122,13 +158,13 @@ def IState.live (s : IState) : IView := { idb := s.idb, version := s.st.version,
 /-- the indexer of `NewReadOnly(v)` -/
 def IState.ro (s : IState) (v : Nat) : IView := { idb := s.idb, version := v }
 
-/-- `IndexBlock`: cache first (!), then header by hash, hash key by height, every tx by hash and by
+/-- `IndexBlock`: the cache first, then header by hash, hash key by height, every tx by hash and by
 height.index (IndexByAccount off) -/
-def IState.indexBlock (s : IState) (h : Nat) (hash : Bytes) (txs : List Bytes) : IState :=
+def IState.indexBlock (mode : CacheKeying) (s : IState) (h : Nat) (hash : Bytes) (txs : List Bytes) : IState :=
   let ov0 := smSet (smSet s.idxOv (blockHashKey hash) (.set (encHdr h hash))) (blockHeightKey h) (.set (blockHashKey hash))
   let ov := (txs.zipIdx).foldl (fun o (th, i) =>
     smSet (smSet o (txHashKey th) (.set (encTx h i th))) (txHeightIndexKey h i) (.set (txHashKey th))) ov0
-  { s with cache := s.cache.add h { hHeight := h, hash := hash, txs := txs }, idxOv := ov }
+  { s with cache := s.cache.add (indexCacheKey mode h hash) { hHeight := h, hash := hash, txs := txs }, idxOv := ov }
 
 /-- `IndexQC` -/
 def IState.indexQC (s : IState) (h : Nat) (blockHash : Bytes) : IState :=
@@ -174,20 +210,21 @@ def IState.view (s : IState) : Option Nat → IView
   | none => s.live
   | some v => s.ro v
 
-def IState.apply (s : IState) : IOp → IState
+def IState.apply (mode : CacheKeying) (s : IState) : IOp → IState
   | .store .commit => s.commit
   | .store (.rollback t) => match s.st.main with
     | [_] => (s.rollback t).getD s
     | _ => s
   | .store op => { s with st := s.st.apply op }
-  | .indexBlock h hash txs => s.indexBlock h hash txs
+  | .indexBlock h hash txs => s.indexBlock mode h hash txs
   | .indexQC h bh => s.indexQC h bh
   | .reset => match s.st.main with
     | [_] => s.reset
     | _ => s
   | .purgeCache => { s with cache := [] }
   | .getBlock vw h hdr =>
-    { s with cache := (if hdr then getBlockHeaderByHeight s.cache (s.view vw) h else getBlockByHeight s.cache (s.view vw) h).2 }
-  | .getQC vw h => { s with cache := (getQCByHeight s.cache (s.view vw) h).2 }
+    { s with cache := (if hdr then getBlockHeaderByHeight mode s.cache (s.view vw) h
+        else getBlockByHeight mode s.cache (s.view vw) h).2 }
+  | .getQC vw h => { s with cache := (getQCByHeight mode s.cache (s.view vw) h).2 }
 
 end Canopy.Store
